@@ -17,6 +17,7 @@ CMT = Cls('NARROW')
 CMT_BLOCK = Cls('NARROW', minus='*/')
 TIGHT = Cls('ASCII', minus=' ', plus='é')         # no blank at the edges: the stored comment is the body itself
 TIGHT_BLOCK = Cls('ASCII', minus=' */', plus='é')
+TIGHT_CR = Cls('ASCII', minus=' ', plus='é\r')    # a carriage return inside a comment (documents with CRLF line ends)
 
 
 def _positions(text):
@@ -109,6 +110,7 @@ ATTACH = {
     'enum': ("{A}Enum e {{\n  a\n}}\n", lambda db: db.enums[0].comment, False),
     'enum_item': ("Enum e {{\n  first\n{A}  a{T}\n  b\n}}\n", lambda db: db.enums[0].items[1].comment, True),
     'index': ("Table t {{\n  id int\n  indexes {{\n    id [unique]\n{A}    (id) [pk]{T}\n  }}\n}}\n", lambda db: db.tables[0].indexes[1].comment, True),
+    'index_plain': ("Table t {{\n  id int\n  b int\n  indexes {{\n    id [unique]\n{A}    b{T}\n    (id, b)\n  }}\n}}\n", lambda db: db.tables[0].indexes[1].comment, True),
     'ref_short': ("Table t {{\n  id int\n  b int\n}}\n{A}Ref: t.id > t.b{T}\n", lambda db: db.refs[0].comment, True),
     'ref_block': ("Table t {{\n  id int\n  b int\n}}\n{A}Ref r {{\n  t.id > t.b [delete: cascade]{T}\n}}\n", lambda db: db.refs[0].comment, True),
     'project': ("{A}Project p {{\n  k: 'v'\n}}\n", lambda db: db.project.comment, False),
@@ -125,7 +127,7 @@ def attachment(kind, K=2):
     def build(a):
         b = text_of(a, 'b', K)
         t = text_of(a, 't', K)
-        ind = '  ' if kind in ('enum_item', 'column') else ('    ' if kind == 'index' else '')
+        ind = '  ' if kind in ('enum_item', 'column') else ('    ' if kind in ('index', 'index_plain') else '')
         if a['above'] == 0:
             A = ''
         elif a['above'] == 1:
@@ -159,10 +161,11 @@ def attachment(kind, K=2):
     return Harness(body, args, describe=lambda a: {'document': build(a)[0], 'expected_comment': build(a)[1]}, bounds={'kind': kind, 'K': K})
 
 
-def render(kind, K=2):
+def render(kind, K=2, cr=False):
     """element with a (possibly two-line) comment built through the API: .dbml re-parses to the same comment, .sql is statement-for-
     statement the SQL without the comment and every comment line is a `--` line"""
-    args = [('two', 'bool')] + hole_args('b', K, TIGHT)
+    # a carriage return can only end the comment (leading blanks of a comment are not part of it)
+    args = [('two', 'bool')] + (hole_args('b', K - 1, TIGHT) + [(f'b{K - 1}', TIGHT_CR)] if cr else hole_args('b', K, TIGHT))
 
     def build(a, with_comment=True):
         from pydbml import Database
@@ -252,4 +255,6 @@ def instances(tier):
         add(f'attach/{kind}', 'attachment', {'kind': kind, 'K': 1 if quick else 2}, T1)
     for kind in ('table', 'enum', 'enum_item', 'column', 'index', 'pk_index', 'ref', 'inline_ref', 'm2m_ref', 'group', 'project'):
         add(f'render/{kind}', 'render', {'kind': kind, 'K': 1 if quick else 2}, T1)
+    for kind in ('table', 'ref', 'enum_item'):
+        add(f'render/{kind}/cr', 'render', {'kind': kind, 'K': 2, 'cr': True}, T1)
     return out
